@@ -21,8 +21,17 @@ impl BananaShower {
             let mut count = 0;
 
             while time <= end_time {
-                time += spacing;
+                let next_time = time + spacing;
                 count += 1;
+
+                // For times beyond 2^24 ms the spacing can be smaller than
+                // the precision of `f32` in which case time no longer
+                // advances; bail out instead of looping forever.
+                if next_time <= time {
+                    break;
+                }
+
+                time = next_time;
             }
 
             count
